@@ -2,7 +2,7 @@
    Only statements, each closed by [exact] of a lemma of C11/Proofs.v (or SigProofs.v), and their assumptions.
    Model: C11/Model.v (Builder::build_generic, Fields::serialize, Message::from_raw_parts, QuickFields, header(), body()).
    Specification: C11/Spec.v ([spec_message] = the D-Bus layout formula, [view] = what a reader must report). *)
-From ZV Require Import Base.Bytes Base.Res Base.Sig C10.Model C11.Model C11.Spec C11.Body C11.SigProofs C11.Proofs.
+From ZV Require Import Base.Bytes Base.Res Base.Sig C10.Model C11.Model C11.Spec C11.Body C11.BodySpec C11.SigProofs C11.Proofs.
 Open Scope N_scope.
 
 (* Round trip.  For every header [h] whose names are valid (any subset of the fields, type 1..4, flags <= 7, non-zero u32
@@ -72,6 +72,15 @@ Theorem C11_typed_as : forall (h : hdr) (nfds : N) (l : list bytes), Forall dstr
   dec_typed (ShAS l) (h_endian h) (spec_message h g bd nfds) (body_offset_of h g bd nfds) nfds = Ok (TAS l).
 Proof. exact typed_as. Qed.
 Print Assumptions C11_typed_as.
+
+(* Two descriptors in one body, also the very same one twice: UNIX_FDS = 2 = the number attached (C11_layout with nfds = 2) and
+   each `h` resolves to the file it was built from. (Arrays of descriptors and a descriptor inside a variant: correspondence only.) *)
+Theorem C11_typed_hh : forall (h : hdr) (i j : N),
+  let bd := enc_hh (h_endian h) in
+  let g := SStruct [SFd; SFd] in
+  dec_typed (ShHH i j) (h_endian h) (spec_message h g bd 2) (body_offset_of h g bd 2) 2 = Ok (TFiles [i; j]).
+Proof. exact typed_hh. Qed.
+Print Assumptions C11_typed_hh.
 
 (* non-vacuity: a big-endian error reply with six header fields, a (su) body and two descriptors meets the hypotheses *)
 Definition C11_example_hdr : hdr :=
